@@ -48,10 +48,32 @@ type wsCfg struct {
 	//                                   request signing, the use="encryption" descriptor is removed from the published XML
 	IdpKey string `json:"idpkey"` // "rsa-key" (IdentityProvider.Key) | "rsa-signer" | "ecdsa-signer" (IdentityProvider.Signer)
 	Hash   string `json:"hash"`   // "default" (field left empty) | "sha1" | "sha256" | "sha384" | "sha512"
+	MdAge  string `json:"mdage,omitempty"` // "stale": both metadata documents were published three days ago (validUntil has passed)
 }
 
 func (c wsCfg) String() string {
-	return fmt.Sprintf("entityid=%s,spkey=%s,binding=%s,signed=%v,enc=%s,idpkey=%s,hash=%s", c.EntityID, c.SPKey, c.Binding, c.Signed, c.Enc, c.IdpKey, c.Hash)
+	s := fmt.Sprintf("entityid=%s,spkey=%s,binding=%s,signed=%v,enc=%s,idpkey=%s,hash=%s", c.EntityID, c.SPKey, c.Binding, c.Signed, c.Enc, c.IdpKey, c.Hash)
+	if c.MdAge == "stale" {
+		s += ",mdage=stale"
+	}
+	return s
+}
+
+var reValidUntil = regexp.MustCompile(`validUntil="[^"]*"`)
+
+// wsAgeMetadata turns a metadata document into the one the same party published three days earlier:
+// its validUntil (two days after publication) lies in the past.
+func wsAgeMetadata(b []byte) ([]byte, *saml.EntityDescriptor, error) {
+	past := saml.TimeNow().Add(-24 * time.Hour).UTC().Format("2006-01-02T15:04:05.000Z")
+	if !reValidUntil.Match(b) {
+		return nil, nil, fmt.Errorf("published metadata carries no validUntil")
+	}
+	b = reValidUntil.ReplaceAll(b, []byte(`validUntil="`+past+`"`))
+	out := &saml.EntityDescriptor{}
+	if err := xml.Unmarshal(b, out); err != nil {
+		return nil, nil, err
+	}
+	return b, out, nil
 }
 
 var wsNow = time.Date(2024, 5, 20, 9, 30, 0, 0, time.UTC)
@@ -210,6 +232,11 @@ func wsSetup(c wsCfg) (*wsFlow, error) {
 	if err != nil {
 		return nil, fmt.Errorf("idp metadata round trip: %w", err)
 	}
+	if c.MdAge == "stale" {
+		if idxml, idpMD, err = wsAgeMetadata(idxml); err != nil {
+			return nil, fmt.Errorf("idp metadata: %w", err)
+		}
+	}
 	s.IDPMetadata = idpMD
 
 	spMD, spxml, err := wsRoundTripMD(s.Metadata())
@@ -224,6 +251,11 @@ func wsSetup(c wsCfg) (*wsFlow, error) {
 		spMD = &saml.EntityDescriptor{}
 		if err := xml.Unmarshal(spxml, spMD); err != nil {
 			return nil, err
+		}
+	}
+	if c.MdAge == "stale" {
+		if spxml, spMD, err = wsAgeMetadata(spxml); err != nil {
+			return nil, fmt.Errorf("sp metadata: %w", err)
 		}
 	}
 	reg.m[spMD.EntityID] = spMD
